@@ -124,31 +124,40 @@ def filt(jobs):
     from collections import Counter
     print(Counter(r["status"] for r in res), "in %.0fs" % (time.time() - t0))
 
-def check():
+def check(shard=None):
+    """shard = (k, n): every n-th survivor starting at k, in the copy VERIF_DIR against the worktree VERIF_REPO; rows go to
+    /tmp/mut/rows-<k>.json and are merged by `mutsweep.py merge`"""
+    VERIF = os.environ.get("VERIF_DIR", "/verif")
+    REPO = os.environ.get("VERIF_REPO", "/repo")
     res = [r for r in json.load(open(os.path.join(OUT, "survivors.json"))) if r["status"] == "survives-suite"]
+    if shard:
+        res = [r for i, r in enumerate(res) if i % shard[1] == shard[0]]
     amap = anchors()
     tri_path = "/verif/selftest/mutsweep_triage.json"
     triage = json.load(open(tri_path)) if os.path.exists(tri_path) else {}
     rows = []
-    assert sh("git -C /repo status --porcelain")[1].strip() == "", "/repo not clean"
+    assert sh("git -C %s status --porcelain" % REPO)[1].strip() == "", REPO + " not clean"
     for r in res:
         props = amap.get(r["file"], [])
         verdicts = {}
-        apply_mut("/repo", r)
+        apply_mut(REPO, r)
         try:
             for pid in props:
-                rc, o = sh("cd /verif && ./check %s --tier quick" % pid, timeout=3600)
+                rc, o = sh("cd %s && ./check %s --tier quick" % (VERIF, pid), timeout=3600)
                 viol = [l for l in o.splitlines() if l.startswith("VIOLATION")]
                 verdicts[pid] = "-" if not viol else ("no-input" if "no-failing-input-found" in viol[0] else "replay")
         finally:
-            sh("git -C /repo checkout -- .")
-            sh("git -C /verif checkout -- evidence/")
+            sh("git -C %s checkout -- ." % REPO)
+            if VERIF == "/verif":
+                sh("git -C /verif checkout -- evidence/")
         best = "replay" if "replay" in verdicts.values() else ("no-input" if "no-input" in verdicts.values() else "not reported")
         key = "%s:%s:%s" % (r["file"], r["old"].strip(), r["op"])
         rows.append(dict(id=r["id"], file=r["file"], line=r["line"], op=r["op"], old=r["old"].strip(), new=(r["new"] or "").strip(), verdicts=verdicts, best=best, triage=triage.get(key, ""), key=key))
         print(r["id"], r["file"], r["line"], r["op"], verdicts, flush=True)
+        json.dump(rows, open(os.path.join(OUT, "rows-%s.json" % (shard[0] if shard else "all")), "w"), indent=1)
+    if not shard:
         json.dump(rows, open("/verif/selftest/MUTSWEEP.json", "w"), indent=1)
-    write_md(rows)
+        write_md(rows)
 
 def write_md(rows):
     from collections import Counter
@@ -170,7 +179,20 @@ if __name__ == "__main__":
     elif cmd == "filter":
         filt(int(sys.argv[3]) if len(sys.argv) > 3 and sys.argv[2] == "-j" else 4)
     elif cmd == "check":
-        check()
+        check((int(sys.argv[2]), int(sys.argv[3])) if len(sys.argv) > 3 else None)
+    elif cmd == "merge":
+        import glob
+        rows = []
+        for fn in sorted(glob.glob(os.path.join(OUT, "rows-*.json"))):
+            rows += json.load(open(fn))
+        rows.sort(key=lambda r: r["id"])
+        tri_path = "/verif/selftest/mutsweep_triage.json"
+        triage = json.load(open(tri_path)) if os.path.exists(tri_path) else {}
+        for r in rows:
+            r["triage"] = triage.get(r["key"], r.get("triage", ""))
+        json.dump(rows, open("/verif/selftest/MUTSWEEP.json", "w"), indent=1)
+        write_md(rows)
+        print("merged", len(rows))
     elif cmd == "md":
         rows = json.load(open("/verif/selftest/MUTSWEEP.json"))
         tri_path = "/verif/selftest/mutsweep_triage.json"
